@@ -9,6 +9,12 @@ type nat =
 | O
 | S of nat
 
+(** val option_map : ('a1 -> 'a2) -> 'a1 option -> 'a2 option **)
+
+let option_map f = function
+| Some a -> Some (f a)
+| None -> None
+
 (** val fst : ('a1 * 'a2) -> 'a1 **)
 
 let fst = function
@@ -117,6 +123,12 @@ let rec map f = function
 | [] -> []
 | a :: t -> (f a) :: (map f t)
 
+(** val flat_map : ('a1 -> 'a2 list) -> 'a1 list -> 'a2 list **)
+
+let rec flat_map f = function
+| [] -> []
+| x :: t -> app (f x) (flat_map f t)
+
 (** val fold_left : ('a1 -> 'a2 -> 'a1) -> 'a2 list -> 'a1 -> 'a1 **)
 
 let rec fold_left f l a0 =
@@ -179,6 +191,14 @@ type z =
 
 module Pos =
  struct
+  type mask =
+  | IsNul
+  | IsPos of positive
+  | IsNeg
+ end
+
+module Coq_Pos =
+ struct
   (** val succ : positive -> positive **)
 
   let rec succ = function
@@ -192,17 +212,17 @@ module Pos =
     match x with
     | XI p ->
       (match y with
-       | XI q -> XO (add_carry p q)
-       | XO q -> XI (add p q)
+       | XI q0 -> XO (add_carry p q0)
+       | XO q0 -> XI (add p q0)
        | XH -> XO (succ p))
     | XO p ->
       (match y with
-       | XI q -> XI (add p q)
-       | XO q -> XO (add p q)
+       | XI q0 -> XI (add p q0)
+       | XO q0 -> XO (add p q0)
        | XH -> XI p)
     | XH -> (match y with
-             | XI q -> XO (succ q)
-             | XO q -> XI q
+             | XI q0 -> XO (succ q0)
+             | XO q0 -> XI q0
              | XH -> XO XH)
 
   (** val add_carry : positive -> positive -> positive **)
@@ -211,18 +231,18 @@ module Pos =
     match x with
     | XI p ->
       (match y with
-       | XI q -> XI (add_carry p q)
-       | XO q -> XO (add_carry p q)
+       | XI q0 -> XI (add_carry p q0)
+       | XO q0 -> XO (add_carry p q0)
        | XH -> XI (succ p))
     | XO p ->
       (match y with
-       | XI q -> XO (add_carry p q)
-       | XO q -> XI (add p q)
+       | XI q0 -> XO (add_carry p q0)
+       | XO q0 -> XI (add p q0)
        | XH -> XO (succ p))
     | XH ->
       (match y with
-       | XI q -> XI (succ q)
-       | XO q -> XO (succ q)
+       | XI q0 -> XI (succ q0)
+       | XO q0 -> XO (succ q0)
        | XH -> XI XH)
 
   (** val pred_double : positive -> positive **)
@@ -232,6 +252,72 @@ module Pos =
   | XO p -> XI (pred_double p)
   | XH -> XH
 
+  type mask = Pos.mask =
+  | IsNul
+  | IsPos of positive
+  | IsNeg
+
+  (** val succ_double_mask : mask -> mask **)
+
+  let succ_double_mask = function
+  | IsNul -> IsPos XH
+  | IsPos p -> IsPos (XI p)
+  | IsNeg -> IsNeg
+
+  (** val double_mask : mask -> mask **)
+
+  let double_mask = function
+  | IsPos p -> IsPos (XO p)
+  | x0 -> x0
+
+  (** val double_pred_mask : positive -> mask **)
+
+  let double_pred_mask = function
+  | XI p -> IsPos (XO (XO p))
+  | XO p -> IsPos (XO (pred_double p))
+  | XH -> IsNul
+
+  (** val sub_mask : positive -> positive -> mask **)
+
+  let rec sub_mask x y =
+    match x with
+    | XI p ->
+      (match y with
+       | XI q0 -> double_mask (sub_mask p q0)
+       | XO q0 -> succ_double_mask (sub_mask p q0)
+       | XH -> IsPos (XO p))
+    | XO p ->
+      (match y with
+       | XI q0 -> succ_double_mask (sub_mask_carry p q0)
+       | XO q0 -> double_mask (sub_mask p q0)
+       | XH -> IsPos (pred_double p))
+    | XH -> (match y with
+             | XH -> IsNul
+             | _ -> IsNeg)
+
+  (** val sub_mask_carry : positive -> positive -> mask **)
+
+  and sub_mask_carry x y =
+    match x with
+    | XI p ->
+      (match y with
+       | XI q0 -> succ_double_mask (sub_mask_carry p q0)
+       | XO q0 -> double_mask (sub_mask p q0)
+       | XH -> IsPos (pred_double p))
+    | XO p ->
+      (match y with
+       | XI q0 -> double_mask (sub_mask_carry p q0)
+       | XO q0 -> succ_double_mask (sub_mask_carry p q0)
+       | XH -> double_pred_mask p)
+    | XH -> IsNeg
+
+  (** val sub : positive -> positive -> positive **)
+
+  let sub x y =
+    match sub_mask x y with
+    | IsPos z0 -> z0
+    | _ -> XH
+
   (** val mul : positive -> positive -> positive **)
 
   let rec mul x y =
@@ -240,19 +326,26 @@ module Pos =
     | XO p -> XO (mul p y)
     | XH -> y
 
+  (** val size_nat : positive -> nat **)
+
+  let rec size_nat = function
+  | XI p0 -> S (size_nat p0)
+  | XO p0 -> S (size_nat p0)
+  | XH -> S O
+
   (** val compare_cont : comparison -> positive -> positive -> comparison **)
 
   let rec compare_cont r x y =
     match x with
     | XI p ->
       (match y with
-       | XI q -> compare_cont r p q
-       | XO q -> compare_cont Gt p q
+       | XI q0 -> compare_cont r p q0
+       | XO q0 -> compare_cont Gt p q0
        | XH -> Gt)
     | XO p ->
       (match y with
-       | XI q -> compare_cont Lt p q
-       | XO q -> compare_cont r p q
+       | XI q0 -> compare_cont Lt p q0
+       | XO q0 -> compare_cont r p q0
        | XH -> Gt)
     | XH -> (match y with
              | XH -> r
@@ -262,6 +355,43 @@ module Pos =
 
   let compare =
     compare_cont Eq
+
+  (** val ggcdn :
+      nat -> positive -> positive -> positive * (positive * positive) **)
+
+  let rec ggcdn n a b =
+    match n with
+    | O -> (XH, (a, b))
+    | S n0 ->
+      (match a with
+       | XI a' ->
+         (match b with
+          | XI b' ->
+            (match compare a' b' with
+             | Eq -> (a, (XH, XH))
+             | Lt ->
+               let (g, p) = ggcdn n0 (sub b' a') a in
+               let (ba, aa) = p in (g, (aa, (add aa (XO ba))))
+             | Gt ->
+               let (g, p) = ggcdn n0 (sub a' b') b in
+               let (ab, bb) = p in (g, ((add bb (XO ab)), bb)))
+          | XO b0 ->
+            let (g, p) = ggcdn n0 a b0 in
+            let (aa, bb) = p in (g, (aa, (XO bb)))
+          | XH -> (XH, (a, XH)))
+       | XO a0 ->
+         (match b with
+          | XI _ ->
+            let (g, p) = ggcdn n0 a0 b in
+            let (aa, bb) = p in (g, ((XO aa), bb))
+          | XO b0 -> let (g, p) = ggcdn n0 a0 b0 in ((XO g), p)
+          | XH -> (XH, (a, XH)))
+       | XH -> (XH, (XH, b)))
+
+  (** val ggcd : positive -> positive -> positive * (positive * positive) **)
+
+  let ggcd a b =
+    ggcdn (Coq__1.add (size_nat a) (size_nat b)) a b
 
   (** val iter_op : ('a1 -> 'a1 -> 'a1) -> positive -> 'a1 -> 'a1 **)
 
@@ -297,13 +427,13 @@ module Z =
   let succ_double = function
   | Z0 -> Zpos XH
   | Zpos p -> Zpos (XI p)
-  | Zneg p -> Zneg (Pos.pred_double p)
+  | Zneg p -> Zneg (Coq_Pos.pred_double p)
 
   (** val pred_double : z -> z **)
 
   let pred_double = function
   | Z0 -> Zneg XH
-  | Zpos p -> Zpos (Pos.pred_double p)
+  | Zpos p -> Zpos (Coq_Pos.pred_double p)
   | Zneg p -> Zneg (XI p)
 
   (** val pos_sub : positive -> positive -> z **)
@@ -312,18 +442,18 @@ module Z =
     match x with
     | XI p ->
       (match y with
-       | XI q -> double (pos_sub p q)
-       | XO q -> succ_double (pos_sub p q)
+       | XI q0 -> double (pos_sub p q0)
+       | XO q0 -> succ_double (pos_sub p q0)
        | XH -> Zpos (XO p))
     | XO p ->
       (match y with
-       | XI q -> pred_double (pos_sub p q)
-       | XO q -> double (pos_sub p q)
-       | XH -> Zpos (Pos.pred_double p))
+       | XI q0 -> pred_double (pos_sub p q0)
+       | XO q0 -> double (pos_sub p q0)
+       | XH -> Zpos (Coq_Pos.pred_double p))
     | XH ->
       (match y with
-       | XI q -> Zneg (XO q)
-       | XO q -> Zneg (Pos.pred_double q)
+       | XI q0 -> Zneg (XO q0)
+       | XO q0 -> Zneg (Coq_Pos.pred_double q0)
        | XH -> Z0)
 
   (** val add : z -> z -> z **)
@@ -334,13 +464,13 @@ module Z =
     | Zpos x' ->
       (match y with
        | Z0 -> x
-       | Zpos y' -> Zpos (Pos.add x' y')
+       | Zpos y' -> Zpos (Coq_Pos.add x' y')
        | Zneg y' -> pos_sub x' y')
     | Zneg x' ->
       (match y with
        | Z0 -> x
        | Zpos y' -> pos_sub y' x'
-       | Zneg y' -> Zneg (Pos.add x' y'))
+       | Zneg y' -> Zneg (Coq_Pos.add x' y'))
 
   (** val opp : z -> z **)
 
@@ -357,13 +487,13 @@ module Z =
     | Zpos x' ->
       (match y with
        | Z0 -> Z0
-       | Zpos y' -> Zpos (Pos.mul x' y')
-       | Zneg y' -> Zneg (Pos.mul x' y'))
+       | Zpos y' -> Zpos (Coq_Pos.mul x' y')
+       | Zneg y' -> Zneg (Coq_Pos.mul x' y'))
     | Zneg x' ->
       (match y with
        | Z0 -> Z0
-       | Zpos y' -> Zneg (Pos.mul x' y')
-       | Zneg y' -> Zpos (Pos.mul x' y'))
+       | Zpos y' -> Zneg (Coq_Pos.mul x' y')
+       | Zneg y' -> Zpos (Coq_Pos.mul x' y'))
 
   (** val compare : z -> z -> comparison **)
 
@@ -374,12 +504,26 @@ module Z =
              | Zpos _ -> Lt
              | Zneg _ -> Gt)
     | Zpos x' -> (match y with
-                  | Zpos y' -> Pos.compare x' y'
+                  | Zpos y' -> Coq_Pos.compare x' y'
                   | _ -> Gt)
     | Zneg x' ->
       (match y with
-       | Zneg y' -> compOpp (Pos.compare x' y')
+       | Zneg y' -> compOpp (Coq_Pos.compare x' y')
        | _ -> Lt)
+
+  (** val sgn : z -> z **)
+
+  let sgn = function
+  | Z0 -> Z0
+  | Zpos _ -> Zpos XH
+  | Zneg _ -> Zneg XH
+
+  (** val leb : z -> z -> bool **)
+
+  let leb x y =
+    match compare x y with
+    | Gt -> false
+    | _ -> true
 
   (** val ltb : z -> z -> bool **)
 
@@ -388,18 +532,126 @@ module Z =
     | Lt -> true
     | _ -> false
 
+  (** val abs : z -> z **)
+
+  let abs = function
+  | Zneg p -> Zpos p
+  | x -> x
+
   (** val to_nat : z -> nat **)
 
   let to_nat = function
-  | Zpos p -> Pos.to_nat p
+  | Zpos p -> Coq_Pos.to_nat p
   | _ -> O
 
   (** val of_nat : nat -> z **)
 
   let of_nat = function
   | O -> Z0
-  | S n0 -> Zpos (Pos.of_succ_nat n0)
+  | S n0 -> Zpos (Coq_Pos.of_succ_nat n0)
+
+  (** val to_pos : z -> positive **)
+
+  let to_pos = function
+  | Zpos p -> p
+  | _ -> XH
+
+  (** val ggcd : z -> z -> z * (z * z) **)
+
+  let ggcd a b =
+    match a with
+    | Z0 -> ((abs b), (Z0, (sgn b)))
+    | Zpos a0 ->
+      (match b with
+       | Z0 -> ((abs a), ((sgn a), Z0))
+       | Zpos b0 ->
+         let (g, p) = Coq_Pos.ggcd a0 b0 in
+         let (aa, bb) = p in ((Zpos g), ((Zpos aa), (Zpos bb)))
+       | Zneg b0 ->
+         let (g, p) = Coq_Pos.ggcd a0 b0 in
+         let (aa, bb) = p in ((Zpos g), ((Zpos aa), (Zneg bb))))
+    | Zneg a0 ->
+      (match b with
+       | Z0 -> ((abs a), ((sgn a), Z0))
+       | Zpos b0 ->
+         let (g, p) = Coq_Pos.ggcd a0 b0 in
+         let (aa, bb) = p in ((Zpos g), ((Zneg aa), (Zpos bb)))
+       | Zneg b0 ->
+         let (g, p) = Coq_Pos.ggcd a0 b0 in
+         let (aa, bb) = p in ((Zpos g), ((Zneg aa), (Zneg bb))))
  end
+
+(** val pow_pos : ('a1 -> 'a1 -> 'a1) -> 'a1 -> positive -> 'a1 **)
+
+let rec pow_pos rmul x = function
+| XI i0 -> let p = pow_pos rmul x i0 in rmul x (rmul p p)
+| XO i0 -> let p = pow_pos rmul x i0 in rmul p p
+| XH -> x
+
+type q = { qnum : z; qden : positive }
+
+(** val inject_Z : z -> q **)
+
+let inject_Z x =
+  { qnum = x; qden = XH }
+
+(** val qle_bool : q -> q -> bool **)
+
+let qle_bool x y =
+  Z.leb (Z.mul x.qnum (Zpos y.qden)) (Z.mul y.qnum (Zpos x.qden))
+
+(** val qplus : q -> q -> q **)
+
+let qplus x y =
+  { qnum = (Z.add (Z.mul x.qnum (Zpos y.qden)) (Z.mul y.qnum (Zpos x.qden)));
+    qden = (Coq_Pos.mul x.qden y.qden) }
+
+(** val qmult : q -> q -> q **)
+
+let qmult x y =
+  { qnum = (Z.mul x.qnum y.qnum); qden = (Coq_Pos.mul x.qden y.qden) }
+
+(** val qopp : q -> q **)
+
+let qopp x =
+  { qnum = (Z.opp x.qnum); qden = x.qden }
+
+(** val qminus : q -> q -> q **)
+
+let qminus x y =
+  qplus x (qopp y)
+
+(** val qinv : q -> q **)
+
+let qinv x =
+  match x.qnum with
+  | Z0 -> { qnum = Z0; qden = XH }
+  | Zpos p -> { qnum = (Zpos x.qden); qden = p }
+  | Zneg p -> { qnum = (Zneg x.qden); qden = p }
+
+(** val qdiv : q -> q -> q **)
+
+let qdiv x y =
+  qmult x (qinv y)
+
+(** val qpower_positive : q -> positive -> q **)
+
+let qpower_positive =
+  pow_pos qmult
+
+(** val qpower : q -> z -> q **)
+
+let qpower q0 = function
+| Z0 -> { qnum = (Zpos XH); qden = XH }
+| Zpos p -> qpower_positive q0 p
+| Zneg p -> qinv (qpower_positive q0 p)
+
+(** val qred : q -> q **)
+
+let qred q0 =
+  let { qnum = q1; qden = q2 } = q0 in
+  let (r1, r2) = snd (Z.ggcd q1 (Zpos q2)) in
+  { qnum = r1; qden = (Z.to_pos r2) }
 
 type sx =
 | SZ of z
@@ -451,6 +703,44 @@ let dlist f = function
 | SZ _ -> None
 | SL l -> opt_all (map f l)
 
+(** val dq : sx -> q option **)
+
+let dq = function
+| SZ _ -> None
+| SL l ->
+  (match l with
+   | [] -> None
+   | s0 :: l0 ->
+     (match s0 with
+      | SZ n ->
+        (match l0 with
+         | [] -> None
+         | s1 :: l1 ->
+           (match s1 with
+            | SZ d ->
+              (match l1 with
+               | [] ->
+                 if Z.ltb Z0 d
+                 then Some { qnum = n; qden = (Z.to_pos d) }
+                 else None
+               | _ :: _ -> None)
+            | SL _ -> None))
+      | SL _ -> None))
+
+(** val dopt : (sx -> 'a1 option) -> sx -> 'a1 option option **)
+
+let dopt f = function
+| SZ _ -> None
+| SL l ->
+  (match l with
+   | [] -> Some None
+   | x :: l0 ->
+     (match l0 with
+      | [] -> (match f x with
+               | Some v -> Some (Some v)
+               | None -> None)
+      | _ :: _ -> None))
+
 (** val ez : z -> sx **)
 
 let ez z0 =
@@ -470,6 +760,11 @@ let ebool b =
 
 let elist f l =
   SL (map f l)
+
+(** val eq_ : q -> sx **)
+
+let eq_ q0 =
+  let r = qred q0 in SL ((SZ r.qnum) :: ((SZ (Zpos r.qden)) :: []))
 
 (** val eopt : ('a1 -> sx) -> 'a1 option -> sx **)
 
@@ -499,6 +794,23 @@ let rec insert_uniq i l = match l with
 
 let sort_uniq l =
   fold_right insert_uniq [] l
+
+(** val qltb : q -> q -> bool **)
+
+let qltb x y =
+  negb (qle_bool y x)
+
+(** val qsum : q list -> q **)
+
+let rec qsum = function
+| [] -> { qnum = Z0; qden = XH }
+| x :: t -> qplus x (qsum t)
+
+(** val gt_ext : q -> q option -> bool **)
+
+let gt_ext o = function
+| Some t0 -> qltb t0 o
+| None -> true
 
 type err =
 | ValueError
@@ -672,6 +984,293 @@ let iter_next s it =
        else let i = nth it.it_pos s.olist O in
             ({ it_pos = (S it.it_pos); it_add = it.it_add; it_clear =
             it.it_clear }, (Yield (i, (get_row s i))))
+
+(** val better : ('a1 -> q) -> 'a1 -> 'a1 -> 'a1 **)
+
+let better key i x =
+  if qltb (key i) (key x) then x else i
+
+(** val fam : ('a1 -> q) -> 'a1 option -> 'a1 list -> 'a1 option **)
+
+let rec fam key inc = function
+| [] -> inc
+| x :: t ->
+  fam key (Some (match inc with
+                 | Some i -> better key i x
+                 | None -> x)) t
+
+(** val first_argmax : ('a1 -> q) -> 'a1 list -> 'a1 option **)
+
+let first_argmax key l =
+  fam key None l
+
+type 'p cand = { c_cell : nat; c_obj : q; c_pay : 'p }
+
+type 'p row = { r_obj : q; r_thr : q; r_pay : 'p }
+
+type cfg = { cells : nat; tmin : q option; lr : q; offset : q }
+
+(** val look : 'a1 row store -> nat -> bool * 'a1 row option **)
+
+let look s i =
+  ((get_occ s i), (get_row s i))
+
+(** val thr_ext : cfg -> (bool * 'a1 row option) -> q option **)
+
+let thr_ext c v =
+  if fst v
+  then (match snd v with
+        | Some r -> Some r.r_thr
+        | None -> Some { qnum = Z0; qden = XH })
+  else c.tmin
+
+(** val thr_base : cfg -> (bool * 'a1 row option) -> q **)
+
+let thr_base c v =
+  if fst v
+  then (match snd v with
+        | Some r -> r.r_thr
+        | None -> { qnum = Z0; qden = XH })
+  else (match c.tmin with
+        | Some t -> t
+        | None -> { qnum = Z0; qden = XH })
+
+(** val can_insert : cfg -> 'a1 row store -> 'a1 cand -> bool **)
+
+let can_insert c s x =
+  gt_ext x.c_obj (thr_ext c (look s x.c_cell))
+
+(** val status_of : cfg -> 'a1 row store -> 'a1 cand -> z **)
+
+let status_of c s x =
+  if can_insert c s x
+  then if get_occ s x.c_cell then Zpos XH else Zpos (XO XH)
+  else Z0
+
+(** val value_of : cfg -> 'a1 row store -> 'a1 cand -> q **)
+
+let value_of c s x =
+  qminus x.c_obj (thr_base c (look s x.c_cell))
+
+(** val batch_thr : cfg -> q -> 'a1 cand list -> q **)
+
+let batch_thr c t grp =
+  let k = Z.of_nat (length grp) in
+  let ratio = qpower (qminus { qnum = (Zpos XH); qden = XH } c.lr) k in
+  qred
+    (qplus (qmult ratio t)
+      (qmult (qdiv (qsum (map (fun c0 -> c0.c_obj) grp)) (inject_Z k))
+        (qminus { qnum = (Zpos XH); qden = XH } ratio)))
+
+(** val new_thr : cfg -> 'a1 row store -> 'a1 cand -> 'a1 cand list -> q **)
+
+let new_thr c s w grp =
+  match c.tmin with
+  | Some _ -> batch_thr c (thr_base c (look s w.c_cell)) grp
+  | None -> qred w.c_obj
+
+(** val group : nat -> 'a1 cand list -> 'a1 cand list **)
+
+let group i l =
+  filter (fun x -> Nat.eqb x.c_cell i) l
+
+(** val collect :
+    (nat -> 'a1 row option) -> nat list -> (nat * 'a1 row) list **)
+
+let collect f l =
+  flat_map (fun i -> match f i with
+                     | Some r -> (i, r) :: []
+                     | None -> []) l
+
+(** val winner_row :
+    cfg -> 'a1 row store -> 'a1 cand list -> nat -> 'a1 row option **)
+
+let winner_row c s filt i =
+  let grp = group i filt in
+  (match first_argmax (fun c0 -> c0.c_obj) grp with
+   | Some w ->
+     Some { r_obj = w.c_obj; r_thr = (new_thr c s w grp); r_pay = w.c_pay }
+   | None -> None)
+
+(** val batch_winners :
+    cfg -> 'a1 row store -> 'a1 cand list -> (nat * 'a1 row) list **)
+
+let batch_winners c s cs =
+  let filt = filter (can_insert c s) cs in
+  collect (winner_row c s filt) (sort_uniq (map (fun c0 -> c0.c_cell) filt))
+
+(** val single_ok : cfg -> 'a1 row store -> 'a1 cand -> bool **)
+
+let single_ok c s x =
+  let v = look s x.c_cell in
+  if fst v then qltb (thr_base c v) x.c_obj else gt_ext x.c_obj c.tmin
+
+(** val single_thr : cfg -> 'a1 row store -> 'a1 cand -> q **)
+
+let single_thr c s x =
+  qred
+    (qplus
+      (qmult (thr_base c (look s x.c_cell))
+        (qminus { qnum = (Zpos XH); qden = XH } c.lr)) (qmult x.c_obj c.lr))
+
+(** val single_winners :
+    cfg -> 'a1 row store -> 'a1 cand -> (nat * 'a1 row) list **)
+
+let single_winners c s x =
+  if single_ok c s x
+  then (x.c_cell, { r_obj = x.c_obj; r_thr = (single_thr c s x); r_pay =
+         x.c_pay }) :: []
+  else []
+
+(** val single_status : cfg -> 'a1 row store -> 'a1 cand -> z **)
+
+let single_status c s x =
+  if single_ok c s x
+  then if get_occ s x.c_cell then Zpos XH else Zpos (XO XH)
+  else Z0
+
+(** val old_obj : 'a1 row store -> nat -> q **)
+
+let old_obj s i =
+  if get_occ s i
+  then (match get_row s i with
+        | Some r -> r.r_obj
+        | None -> { qnum = Z0; qden = XH })
+  else { qnum = Z0; qden = XH }
+
+(** val sum_delta : 'a1 row store -> (nat * 'a1 row) list -> q **)
+
+let sum_delta s w =
+  qsum (map (fun p -> qminus (snd p).r_obj (old_obj s (fst p))) w)
+
+(** val best_index : (nat * 'a1 row) list -> nat option **)
+
+let best_index w =
+  option_map fst (first_argmax (fun p -> (snd p).r_obj) w)
+
+type stats = { st_num : nat; st_cov : q; st_qd : q; st_norm : q;
+               st_max : q option; st_mean : q option }
+
+type 'p archive = { a_store : 'p row store; a_sum : q; a_stats : stats;
+                    a_best : (nat * 'p row) option }
+
+(** val stats0 : stats **)
+
+let stats0 =
+  { st_num = O; st_cov = { qnum = Z0; qden = XH }; st_qd = { qnum = Z0;
+    qden = XH }; st_norm = { qnum = Z0; qden = XH }; st_max = None; st_mean =
+    None }
+
+(** val arch_init : cfg -> 'a1 archive **)
+
+let arch_init c =
+  { a_store = (init c.cells); a_sum = { qnum = Z0; qden = XH }; a_stats =
+    stats0; a_best = None }
+
+(** val qnat : nat -> q **)
+
+let qnat n =
+  inject_Z (Z.of_nat n)
+
+(** val stats_update :
+    cfg -> 'a1 archive -> 'a1 row store -> q -> nat -> 'a1 archive **)
+
+let stats_update c a s' sum' bi =
+  let n = len s' in
+  let qd = qminus sum' (qmult (qnat n) c.offset) in
+  (match get_row s' bi with
+   | Some r ->
+     (match a.a_stats.st_max with
+      | Some m ->
+        if qltb m r.r_obj
+        then let omax = Some r.r_obj in
+             let best = Some (bi, r) in
+             { a_store = s'; a_sum = sum'; a_stats = { st_num = n; st_cov =
+             (qdiv (qnat n) (qnat c.cells)); st_qd = qd; st_norm =
+             (qdiv qd (qnat c.cells)); st_max = omax; st_mean = (Some
+             (qdiv sum' (qnat n))) }; a_best = best }
+        else let omax = Some m in
+             let best = a.a_best in
+             { a_store = s'; a_sum = sum'; a_stats = { st_num = n; st_cov =
+             (qdiv (qnat n) (qnat c.cells)); st_qd = qd; st_norm =
+             (qdiv qd (qnat c.cells)); st_max = omax; st_mean = (Some
+             (qdiv sum' (qnat n))) }; a_best = best }
+      | None ->
+        let omax = Some r.r_obj in
+        let best = Some (bi, r) in
+        { a_store = s'; a_sum = sum'; a_stats = { st_num = n; st_cov =
+        (qdiv (qnat n) (qnat c.cells)); st_qd = qd; st_norm =
+        (qdiv qd (qnat c.cells)); st_max = omax; st_mean = (Some
+        (qdiv sum' (qnat n))) }; a_best = best })
+   | None ->
+     let omax = a.a_stats.st_max in
+     let best = a.a_best in
+     { a_store = s'; a_sum = sum'; a_stats = { st_num = n; st_cov =
+     (qdiv (qnat n) (qnat c.cells)); st_qd = qd; st_norm =
+     (qdiv qd (qnat c.cells)); st_max = omax; st_mean = (Some
+     (qdiv sum' (qnat n))) }; a_best = best })
+
+(** val commit :
+    cfg -> 'a1 archive -> 'a1 row store -> (nat * 'a1 row) list -> 'a1 archive **)
+
+let commit c a s1 w =
+  let s' = fst (add_raw s1 (map fst w) (map snd w) true) in
+  (match best_index w with
+   | Some bi -> stats_update c a s' (qplus a.a_sum (sum_delta s1 w)) bi
+   | None ->
+     { a_store = s'; a_sum = a.a_sum; a_stats = a.a_stats; a_best = a.a_best })
+
+(** val add1 :
+    cfg -> 'a1 archive -> 'a1 cand list -> 'a1 archive * (z list * q list) **)
+
+let add1 c a cs =
+  let s1 = bump_add a.a_store in
+  ((commit c a s1 (batch_winners c s1 cs)), ((map (status_of c s1) cs),
+  (map (value_of c s1) cs)))
+
+(** val add_single :
+    cfg -> 'a1 archive -> 'a1 cand -> 'a1 archive * (z * q) **)
+
+let add_single c a x =
+  let s1 = bump_add a.a_store in
+  ((commit c a s1 (single_winners c s1 x)), ((single_status c s1 x),
+  (value_of c s1 x)))
+
+(** val clear0 : cfg -> 'a1 archive -> 'a1 archive **)
+
+let clear0 _ a =
+  { a_store = (clear a.a_store); a_sum = { qnum = Z0; qden = XH }; a_stats =
+    stats0; a_best = None }
+
+(** val content : 'a1 archive -> nat -> 'a1 row option **)
+
+let content a i =
+  if get_occ a.a_store i then get_row a.a_store i else None
+
+(** val retrieve_cells :
+    'a1 archive -> nat list -> (bool * (nat * 'a1 row) option) list **)
+
+let retrieve_cells a q0 =
+  map (fun i ->
+    match content a i with
+    | Some r -> (true, (Some (i, r)))
+    | None -> (false, None)) q0
+
+(** val sample :
+    'a1 archive -> nat list -> (nat * 'a1 row option) list result **)
+
+let sample a ints =
+  if Nat.eqb (len a.a_store) O
+  then Err IndexError
+  else Ok
+         (map (fun k ->
+           let i = nth k a.a_store.olist O in (i, (get_row a.a_store i)))
+           ints)
+
+(** val elites : 'a1 archive -> (nat * 'a1 row option) list **)
+
+let elites a =
+  data a.a_store
 
 (** val err_code : err -> z **)
 
@@ -909,5 +1508,291 @@ let run_C13 = function
               (match dnat c with
                | Some cc ->
                  SL (run_ops { s_store = (init cc); s_iters = [] } ops)
+               | None -> sx_fail)
+            | _ :: _ -> sx_fail))))
+
+(** val dcand : sx -> z cand option **)
+
+let dcand = function
+| SZ _ -> None
+| SL l ->
+  (match l with
+   | [] -> None
+   | c :: l0 ->
+     (match l0 with
+      | [] -> None
+      | o :: l1 ->
+        (match l1 with
+         | [] -> None
+         | p :: l2 ->
+           (match l2 with
+            | [] ->
+              (match dnat c with
+               | Some cc ->
+                 (match dq o with
+                  | Some oo ->
+                    (match dz p with
+                     | Some pp -> Some { c_cell = cc; c_obj = oo; c_pay = pp }
+                     | None -> None)
+                  | None -> None)
+               | None -> None)
+            | _ :: _ -> None))))
+
+(** val dcfg : sx -> cfg option **)
+
+let dcfg = function
+| SZ _ -> None
+| SL l0 ->
+  (match l0 with
+   | [] -> None
+   | n :: l1 ->
+     (match l1 with
+      | [] -> None
+      | t :: l2 ->
+        (match l2 with
+         | [] -> None
+         | l :: l3 ->
+           (match l3 with
+            | [] -> None
+            | o :: l4 ->
+              (match l4 with
+               | [] ->
+                 (match dnat n with
+                  | Some nn ->
+                    (match dopt dq t with
+                     | Some tm ->
+                       (match dq l with
+                        | Some ll ->
+                          (match dq o with
+                           | Some oo ->
+                             Some { cells = nn; tmin = tm; lr = ll; offset =
+                               oo }
+                           | None -> None)
+                        | None -> None)
+                     | None -> None)
+                  | None -> None)
+               | _ :: _ -> None)))))
+
+(** val erow_ : z row -> sx **)
+
+let erow_ r =
+  SL ((eq_ r.r_obj) :: ((eq_ r.r_thr) :: ((ez r.r_pay) :: [])))
+
+(** val eirow : (nat * z row) -> sx **)
+
+let eirow p =
+  SL ((enat (fst p)) :: ((erow_ (snd p)) :: []))
+
+(** val eiorow : (nat * z row option) -> sx **)
+
+let eiorow p =
+  SL ((enat (fst p)) :: ((eopt erow_ (snd p)) :: []))
+
+(** val estats : z archive -> sx **)
+
+let estats a =
+  let s = a.a_stats in
+  SL
+  ((enat s.st_num) :: ((eq_ s.st_cov) :: ((eq_ s.st_qd) :: ((eq_ s.st_norm) :: (
+  (eopt eq_ s.st_max) :: ((eopt eq_ s.st_mean) :: ((eopt eirow a.a_best) :: (
+  (eq_ a.a_sum) :: ((enat (len a.a_store)) :: [])))))))))
+
+(** val drow : sx -> (nat * z row) option **)
+
+let drow = function
+| SZ _ -> None
+| SL l ->
+  (match l with
+   | [] -> None
+   | i :: l0 ->
+     (match l0 with
+      | [] -> None
+      | o :: l1 ->
+        (match l1 with
+         | [] -> None
+         | t :: l2 ->
+           (match l2 with
+            | [] -> None
+            | p :: l3 ->
+              (match l3 with
+               | [] ->
+                 (match dnat i with
+                  | Some ii ->
+                    (match dq o with
+                     | Some oo ->
+                       (match dq t with
+                        | Some th ->
+                          (match dz p with
+                           | Some pp ->
+                             Some (ii, { r_obj = oo; r_thr = th; r_pay = pp })
+                           | None -> None)
+                        | None -> None)
+                     | None -> None)
+                  | None -> None)
+               | _ :: _ -> None)))))
+
+(** val load_state :
+    cfg -> (nat * z row) list -> q -> q option -> (nat * z row) option -> z
+    archive **)
+
+let load_state c rows0 sum omax best =
+  let s = fst (add_raw (init c.cells) (map fst rows0) (map snd rows0) true) in
+  let n = len s in
+  { a_store = s; a_sum = sum; a_stats = { st_num = n; st_cov =
+  (qdiv (qnat n) (qnat c.cells)); st_qd =
+  (qminus sum (qmult (qnat n) c.offset)); st_norm =
+  (qdiv (qminus sum (qmult (qnat n) c.offset)) (qnat c.cells)); st_max =
+  omax; st_mean = (if Nat.eqb n O then None else Some (qdiv sum (qnat n))) };
+  a_best = best }
+
+(** val arch_op : cfg -> z archive -> sx -> z archive * sx **)
+
+let arch_op c a = function
+| SZ _ -> (a, sx_fail)
+| SL l0 ->
+  (match l0 with
+   | [] -> (a, sx_fail)
+   | s :: l1 ->
+     (match s with
+      | SZ z0 ->
+        (match z0 with
+         | Z0 ->
+           (match l1 with
+            | [] -> (a, sx_fail)
+            | l :: l2 ->
+              (match l2 with
+               | [] ->
+                 (match dlist dcand l with
+                  | Some cs ->
+                    let (a', p) = add1 c a cs in
+                    let (st0, vl) = p in
+                    (a', (SL ((elist ez st0) :: ((elist eq_ vl) :: []))))
+                  | None -> (a, sx_fail))
+               | _ :: _ -> (a, sx_fail)))
+         | Zpos p ->
+           (match p with
+            | XI p0 ->
+              (match p0 with
+               | XI p1 ->
+                 (match p1 with
+                  | XH ->
+                    (match l1 with
+                     | [] -> (a, sx_fail)
+                     | rows0 :: l ->
+                       (match l with
+                        | [] -> (a, sx_fail)
+                        | sm :: l2 ->
+                          (match l2 with
+                           | [] -> (a, sx_fail)
+                           | om :: l3 ->
+                             (match l3 with
+                              | [] -> (a, sx_fail)
+                              | b :: l4 ->
+                                (match l4 with
+                                 | [] ->
+                                   (match dlist drow rows0 with
+                                    | Some rr ->
+                                      (match dq sm with
+                                       | Some ss ->
+                                         (match dopt dq om with
+                                          | Some oo ->
+                                            (match dopt drow b with
+                                             | Some bb ->
+                                               ((load_state c rr ss oo bb),
+                                                 (SL []))
+                                             | None -> (a, sx_fail))
+                                          | None -> (a, sx_fail))
+                                       | None -> (a, sx_fail))
+                                    | None -> (a, sx_fail))
+                                 | _ :: _ -> (a, sx_fail))))))
+                  | _ -> (a, sx_fail))
+               | XO p1 ->
+                 (match p1 with
+                  | XH ->
+                    (match l1 with
+                     | [] -> (a, (estats a))
+                     | _ :: _ -> (a, sx_fail))
+                  | _ -> (a, sx_fail))
+               | XH ->
+                 (match l1 with
+                  | [] -> (a, sx_fail)
+                  | q0 :: l ->
+                    (match l with
+                     | [] ->
+                       (match dlist dnat q0 with
+                        | Some qq ->
+                          (a,
+                            (elist (fun p1 -> SL
+                              ((ebool (fst p1)) :: ((eopt eirow (snd p1)) :: [])))
+                              (retrieve_cells a qq)))
+                        | None -> (a, sx_fail))
+                     | _ :: _ -> (a, sx_fail))))
+            | XO p0 ->
+              (match p0 with
+               | XI p1 ->
+                 (match p1 with
+                  | XH ->
+                    (match l1 with
+                     | [] -> (a, sx_fail)
+                     | k :: l ->
+                       (match l with
+                        | [] ->
+                          (match dlist dnat k with
+                           | Some kk ->
+                             (a, (eres (elist eiorow) (sample a kk)))
+                           | None -> (a, sx_fail))
+                        | _ :: _ -> (a, sx_fail)))
+                  | _ -> (a, sx_fail))
+               | XO p1 ->
+                 (match p1 with
+                  | XH ->
+                    (match l1 with
+                     | [] -> (a, (elist eiorow (elites a)))
+                     | _ :: _ -> (a, sx_fail))
+                  | _ -> (a, sx_fail))
+               | XH ->
+                 (match l1 with
+                  | [] -> ((clear0 c a), (SL []))
+                  | _ :: _ -> (a, sx_fail)))
+            | XH ->
+              (match l1 with
+               | [] -> (a, sx_fail)
+               | x :: l ->
+                 (match l with
+                  | [] ->
+                    (match dcand x with
+                     | Some xx ->
+                       let (a', p0) = add_single c a xx in
+                       let (st0, vl) = p0 in
+                       (a', (SL ((ez st0) :: ((eq_ vl) :: []))))
+                     | None -> (a, sx_fail))
+                  | _ :: _ -> (a, sx_fail))))
+         | Zneg _ -> (a, sx_fail))
+      | SL _ -> (a, sx_fail)))
+
+(** val arch_ops : cfg -> z archive -> sx list -> sx list **)
+
+let rec arch_ops c a = function
+| [] -> []
+| o :: t -> let (a', out) = arch_op c a o in out :: (arch_ops c a' t)
+
+(** val run_ARCH : sx -> sx **)
+
+let run_ARCH = function
+| SZ _ -> sx_fail
+| SL l ->
+  (match l with
+   | [] -> sx_fail
+   | c :: l0 ->
+     (match l0 with
+      | [] -> sx_fail
+      | s :: l1 ->
+        (match s with
+         | SZ _ -> sx_fail
+         | SL ops ->
+           (match l1 with
+            | [] ->
+              (match dcfg c with
+               | Some cc -> SL (arch_ops cc (arch_init cc) ops)
                | None -> sx_fail)
             | _ :: _ -> sx_fail))))
